@@ -18,6 +18,8 @@ pub struct RegAdapter {
     pub consts: Vec<(&'static str, u64)>,
     pub display: (Fmt, fn(u64) -> String),
     pub debug: (Fmt, fn(u64) -> String),
+    /// Display with formatter flags: (flag, output)
+    pub display_flags: Option<fn(u64) -> Vec<(&'static str, String)>>,
 }
 
 fn nofmt(_: u64) -> String {
@@ -31,10 +33,16 @@ macro_rules! reg {
             consts: vec![$((stringify!($name), $T::$name.0 as u64)),*],
             display: reg!(@d $disp, $T, $inner),
             debug: reg!(@g $dbg, $T, $inner),
+            display_flags: reg!(@f $disp, $T, $inner),
         }
     };
     (@d Absent, $T:ident, $inner:ty) => { (Fmt::Absent, nofmt as fn(u64) -> String) };
     (@d $k:ident, $T:ident, $inner:ty) => { (Fmt::$k, (|x: u64| format!("{}", $T(x as $inner))) as fn(u64) -> String) };
+    (@f Absent, $T:ident, $inner:ty) => { None };
+    (@f $k:ident, $T:ident, $inner:ty) => { Some((|x: u64| {
+        let v = $T(x as $inner);
+        vec![("{:>44}", format!("{:>44}", v)), ("{:<44}", format!("{:<44}", v)), ("{:#}", format!("{:#}", v)), ("{:^50}", format!("{:^50}", v))]
+    }) as fn(u64) -> Vec<(&'static str, String)>) };
     (@g Absent, $T:ident, $inner:ty) => { (Fmt::Absent, nofmt as fn(u64) -> String) };
     (@g $k:ident, $T:ident, $inner:ty) => { (Fmt::$k, (|x: u64| format!("{:?}", $T(x as $inner))) as fn(u64) -> String) };
 }
